@@ -28,6 +28,23 @@ Theorem C04_edit_refines : forall q e,
 Proof. exact ed_b_apply_refines. Qed.
 Print Assumptions C04_edit_refines.
 
+(* the same in the shape of the property text: what the accessors show after the edit is the edit
+   applied to what they showed before; a refused edit leaves the PDU as it was (or with the
+   implicit Hop-Limit only) *)
+Theorem C04_edit_abs : forall q e,
+  ed_pwf q -> ed_op_ok e ->
+  exists r p',
+    ed_b_apply (ed_of_pdu q) e = Some (r, p') /\
+    ed_abs (ed_of_pdu q) = Some (p_msg q) /\
+    r = fst (ed_apply q e) /\
+    ed_abs p' = Some (p_msg (snd (ed_apply q e))) /\
+    (r = false ->
+     p' = ed_of_pdu q \/
+     exists n v, (e = EdInsert n v \/ e = EdUpdate n v) /\ ed_hop_trigger (p_msg q) n = true /\
+                 p' = ed_of_pdu (snd (add_opt_raw q 16 [16]))).
+Proof. exact ed_b_apply_abs. Qed.
+Print Assumptions C04_edit_abs.
+
 (* edit lists of any length, by induction *)
 Theorem C04_edits_refine : forall es q,
   ed_pwf q -> Forall ed_op_ok es ->
